@@ -1,0 +1,205 @@
+// Copyright 2025 The Go Authors. All rights reserved.
+// Use of this source code is governed by a BSD-style
+// license that can be found in the LICENSE file.
+
+//go:build verif
+
+package publicsuffix
+
+import "strings"
+
+// Contracts, spec functions and lemma harnesses for the deductive verifier in /verif (govc).
+// This file is compiled only with -tags verif; it adds no behaviour to the package.
+
+// ---------------------------------------------------------------------------
+// Packed tables (property C51). The spec functions below are written from the layout
+// documented in table.go, not from the accessor code in list.go:
+//
+//	node (40 bits, big endian, 5 bytes): [7 unused][10 children index][1 ICANN][16 text offset][6 text length]
+//	children entry (32 bits, big endian): [1 unused][1 wildcard][2 node type][14 hi][14 lo]
+//
+// The tables themselves (text, nodes, children) are //go:embed data and are not visible to
+// the verifier: their well-formedness is a precondition (tableWF and the quantified
+// requires of PublicSuffix), not a proved lemma.
+
+//@ pure
+func specNodeWord(i uint32) uint64 {
+	k := int(i * 5) // i < 16384 on every well-formed table, so the uint32 product is exact
+	return uint64(nodes[k])<<32 | uint64(nodes[k+1])<<24 | uint64(nodes[k+2])<<16 | uint64(nodes[k+3])<<8 | uint64(nodes[k+4])
+}
+
+//@ pure
+func specTextLen(i uint32) int { return int(specNodeWord(i) & 63) }
+
+//@ pure
+func specTextOff(i uint32) int { return int((specNodeWord(i) >> 6) & 0xffff) }
+
+//@ pure
+func specICANN(i uint32) bool { return (specNodeWord(i)>>22)&1 != 0 }
+
+//@ pure
+func specChildIdx(i uint32) uint32 { return uint32(specNodeWord(i)>>23) & 1023 }
+
+//@ pure
+func specChildWord(c uint32) uint32 {
+	k := int(c * 4) // c < 1024
+	return uint32(children[k])<<24 | uint32(children[k+1])<<16 | uint32(children[k+2])<<8 | uint32(children[k+3])
+}
+
+//@ pure
+func specChildLo(c uint32) uint32 { return specChildWord(c) & 0x3fff }
+
+//@ pure
+func specChildHi(c uint32) uint32 { return (specChildWord(c) >> 14) & 0x3fff }
+
+//@ pure
+func specChildType(c uint32) uint32 { return (specChildWord(c) >> 28) & 3 }
+
+// inNodes: i is the index of a node of the table.
+//
+//@ pure
+func inNodes(i uint32) bool { return i < 16384 && int(i*5)+5 <= len(nodes) }
+
+// wfNode: node i exists, its label lies inside text and its children index inside children.
+//
+//@ pure
+func wfNode(i uint32) bool {
+	return inNodes(i) && specTextOff(i)+specTextLen(i) <= len(text) && int(specChildIdx(i)*4)+4 <= len(children)
+}
+
+// wfChild: children entry c denotes a range lo <= hi of existing nodes.
+//
+//@ pure
+func wfChild(c uint32) bool {
+	return specChildLo(c) <= specChildHi(c) && int(specChildHi(c)*5) <= len(nodes)
+}
+
+//@ func (uint32String).get(u, i) (r)
+//@   pure
+//@
+//@ func (uint40String).get(u, i) (r)
+//@   pure
+//@
+//@ func nodeLabel(i) (r)
+//@   pure
+
+// lemmaNodeAccessors: on a well-formed node the accessors of list.go read exactly the fields
+// of the documented layout: nodeLabel(i) is text[off:off+len], nodes.get(i) is the 40-bit
+// big-endian word, children.get(c) the 32-bit big-endian word.
+//
+//@ lemma
+//@ hide text, nodes, children
+//@ requires wfNode(i)
+//@ ensures ok
+func lemmaNodeAccessors(i uint32) (ok bool) {
+	l := nodeLabel(i)
+	c := specChildIdx(i)
+	return nodes.get(i) == specNodeWord(i) && children.get(c) == specChildWord(c) &&
+		len(l) == specTextLen(i) && l == text[specTextOff(i):specTextOff(i)+specTextLen(i)]
+}
+
+// specThreshold: the first index of [lo, hi) whose label is not below x (hi if there is none),
+// computed from the top: used only as a name for that index in the sortedness precondition.
+//
+// It is a ghost constant: specT is hidden in the units that mention it (an unknown, fixed value),
+// so a contract that requires T0..T4 of specThreshold is proved for every value of it, i.e. under
+// the precondition "there is an index t with T0..T4".
+var specT uint32
+
+//@ pure
+func specThreshold(x string, lo, hi uint32) uint32 { return specT }
+
+// find: binary search over the node labels of [lo, hi).
+// Safety and soundness need only that the nodes of the range are well formed; completeness
+// (notFound ==> no node of the range carries the label) and uniqueness need sortedness.
+// String ordering is uninterpreted in the verifier, so "the labels of [lo, hi) are strictly
+// increasing" is stated relative to the searched label x, as its consequences under the
+// order axioms of Go's string comparison (transitivity, asymmetry, trichotomy):
+// with t = specThreshold(x, lo, hi), the first index of the range whose label is not below x:
+//   T0: lo <= t <= hi
+//   T1: lo <= i < t  ==> label(i) < x            T2: t <= i < hi ==> !(label(i) < x)
+//   T3: t < i < hi   ==> x < label(i)            T4: t < hi ==> x < label(t) or label(t) == x
+//   M3: never label(i) < x and x < label(i)
+//   E : label(i) == x <==> neither label(i) < x nor x < label(i)
+// (one bound variable per clause: two-variable monotonicity clauses were not instantiated by the
+// solvers within the budget).
+//
+//@ func find(label, lo, hi) (r)
+//@   hide text, nodes, children, specT
+//@   requires lo <= hi && (forall i uint32 :: lo <= i && i < hi ==> wfNode(i))
+//@   requires lo <= specThreshold(label, lo, hi) && specThreshold(label, lo, hi) <= hi
+//@   requires forall i uint32 :: lo <= i && i < specThreshold(label, lo, hi) ==> nodeLabel(i) < label
+//@   requires forall i uint32 :: specThreshold(label, lo, hi) <= i && i < hi ==> !(nodeLabel(i) < label)
+//@   requires forall i uint32 :: specThreshold(label, lo, hi) < i && i < hi ==> label < nodeLabel(i)
+//@   requires specThreshold(label, lo, hi) < hi ==> (label < nodeLabel(specThreshold(label, lo, hi)) || nodeLabel(specThreshold(label, lo, hi)) == label)
+//@   requires forall i uint32 :: lo <= i && i < hi ==> !(nodeLabel(i) < label && label < nodeLabel(i))
+//@   requires forall i uint32 :: lo <= i && i < hi ==> (nodeLabel(i) == label <==> !(nodeLabel(i) < label) && !(label < nodeLabel(i)))
+//@   ensures  r != notFound ==> lo <= r && r < hi && nodeLabel(r) == label
+//@   ensures  r == notFound ==> (forall i uint32 :: lo <= i && i < hi ==> (nodeLabel(i) < label || label < nodeLabel(i)))
+//@   ensures  r != notFound ==> (forall i uint32 :: lo <= i && i < hi && i != r ==> (nodeLabel(i) < label || label < nodeLabel(i)))
+//@   assert at call nodeLabel: wfNode($i)
+//@   loop 1 invariant old(lo) <= lo && lo <= hi && hi <= old(hi)
+//@   loop 1 invariant lo <= specThreshold(label, old(lo), old(hi)) && specThreshold(label, old(lo), old(hi)) <= hi
+//@   loop 1 invariant hi == old(hi) || label < nodeLabel(hi)
+
+// PublicSuffix: the node walk. Table well-formedness is the precondition (the embedded data is
+// not visible to the verifier):
+//   W1 the numTLD top-level nodes exist, and every existing node has its label inside text and
+//      its children index inside children;
+//   W2 every children entry denotes a range lo <= hi of existing nodes;
+//   W3 no top-level node is of exception type (an exception rule has at least two labels).
+// The sortedness part of find's precondition (T0..T4, M3, E) is assumed at the call
+// (partial pre:find); its well-formedness part is checked there (assert at call find).
+// Proved: no panic, and the result is a suffix of domain that starts at a label boundary.
+//
+//@ func PublicSuffix(domain) (r, icann)
+//@   hide text, nodes, children, specT
+//@   partial pre:find
+//@   requires int(numTLD*5) <= len(nodes)
+//@   requires forall i uint32 :: inNodes(i) ==> wfNode(i)
+//@   requires forall c uint32 :: c < 1024 && int(c*4)+4 <= len(children) ==> wfChild(c)
+//@   requires forall i uint32 :: i < numTLD ==> specChildType(specChildIdx(i)) != nodeTypeException
+//@   ensures  len(r) <= len(domain) && (forall k int :: 0 <= k && k < len(r) ==> r[k] == domain[len(domain)-len(r)+k])
+//@   ensures  len(r) == len(domain) || domain[len(domain)-len(r)-1] == '.'
+//@   assert at call find: $lo <= $hi && $hi <= 16384 && int($hi*5) <= len(nodes)
+//@   assert at call find: forall i uint32 :: $lo <= i && i < $hi ==> wfNode(i)
+//@   loop 1 invariant lo <= hi && hi <= 16384 && int(hi*5) <= len(nodes)
+//@   loop 1 invariant len(s) <= len(domain) && (len(s) == len(domain) || domain[len(s)] == '.')
+//@   loop 1 invariant forall k int :: 0 <= k && k < len(s) ==> s[k] == domain[k]
+//@   loop 1 invariant 0 <= suffix && suffix <= len(domain)
+//@   loop 1 invariant suffix == 0 || suffix == len(domain) || domain[suffix-1] == '.'
+//@   loop 1 invariant len(s) == len(domain) ==> lo == 0 && hi == numTLD
+
+// lemmaNoEmptyLabel: what the trusted contract of strings.Contains gives for the needle "..":
+// a domain that passes the check has no two adjacent dots.
+//
+//@ lemma
+//@ ensures ok
+func lemmaNoEmptyLabel(s string, i int) (ok bool) {
+	if strings.Contains(s, "..") {
+		return true
+	}
+	return !(1 <= i && i < len(s)) || !(s[i-1] == '.' && s[i] == '.')
+}
+
+// EffectiveTLDPlusOne: on success the result is a label-boundary suffix of domain that consists
+// of exactly one non-empty, dot-free label, a dot, and the public suffix (whose length the ghost
+// counter sl records at the call of PublicSuffix).
+//
+//@ func EffectiveTLDPlusOne(domain) (r, err)
+//@   hide text, nodes, children
+//@   requires int(numTLD*5) <= len(nodes)
+//@   requires forall i uint32 :: inNodes(i) ==> wfNode(i)
+//@   requires forall c uint32 :: c < 1024 && int(c*4)+4 <= len(children) ==> wfChild(c)
+//@   requires forall i uint32 :: i < numTLD ==> specChildType(specChildIdx(i)) != nodeTypeException
+//@   allocates
+//@   ghost sl += len($r0) after call PublicSuffix
+//@   ensures  err != nil ==> len(r) == 0
+//@   ensures  len(domain) >= 1 && domain[0] != '.' && domain[len(domain)-1] != '.' && (forall i int :: 0 <= i && i + 1 < len(domain) ==> !(domain[i] == '.' && domain[i+1] == '.')) && len(domain) > ghost(sl) ==> err == nil
+//@   ensures  err == nil ==> len(r) <= len(domain) && (forall k int :: 0 <= k && k < len(r) ==> r[k] == domain[len(domain)-len(r)+k])
+//@   ensures  err == nil ==> (len(r) == len(domain) || domain[len(domain)-len(r)-1] == '.')
+//@   ensures  err == nil ==> ghost(sl) >= 1 && len(r) >= ghost(sl) + 1
+//@   ensures  err == nil ==> r[len(r)-ghost(sl)-1] == '.'
+// NOT under contract (undecided within 60 s per obligation, so left out rather than assumed):
+//   err == nil ==> len(r) >= ghost(sl) + 2                                   (the extra label is non-empty)
+//   err == nil ==> forall k :: 0 <= k < len(r)-ghost(sl)-1 ==> r[k] != '.'   (it is exactly one label)
